@@ -32,14 +32,34 @@ class C18set(vlib.HistoryProp):
 
     # ---- generation -----------------------------------------------------------------
     def exhaustive(self, letters, maxlen, tag, out):
+        """every sequence over `letters` up to maxlen in which an operation that cannot change the
+        table (remove of an absent key, clear of a pristine table) only occurs as the LAST one
+        (such an operation elsewhere leaves the same table as the sequence without it, which is
+        enumerated too); every sequence is followed by a lookup of each of the four keys"""
         suffix = ["F %d" % k for k in U4]
         n0 = len(out)
-        for n in range(1, maxlen + 1):
-            for tup in itertools.product(range(len(letters)), repeat=n):
-                ops = []
-                for pos, li in enumerate(tup):
-                    ops.append(letters[li].replace("$", str(10 * (pos + 1) + li % 4)))
-                out.append(Case("%s%d" % (tag, len(out) - n0), "1", ops + suffix, "exhaustive-%s-len<=%d" % (tag, maxlen)))
+
+        def rec(ops, present, pristine):
+            for li, l in enumerate(letters):
+                w = l.split()
+                o2 = ops + [l.replace("$", str(10 * (len(ops) + 1) + li % 4))]
+                out.append(Case("%s%d" % (tag, len(out) - n0), "1", o2 + suffix, "exhaustive-%s-len<=%d" % (tag, maxlen)))
+                if len(o2) >= maxlen:
+                    continue
+                k = int(w[1]) if len(w) > 1 and w[0] in "AIR" else None
+                if w[0] == "R":
+                    if k in present:
+                        rec(o2, present - {k}, False)
+                elif w[0] in "AI":
+                    rec(o2, present | {k}, False)
+                elif w[0] == "C":
+                    if not (pristine and not present):
+                        rec(o2, frozenset(), True)
+                elif w[0] == "H":
+                    rec(o2, present, not present)
+                else:
+                    rec(o2, present, False)
+        rec([], frozenset(), True)
 
     def to_map(self, ops):
         """the same history through con::map where it has the operation"""
@@ -84,11 +104,12 @@ class C18set(vlib.HistoryProp):
                 ops.append("%sS" % pre)
             elif r < pa + pr + 0.20:
                 if pre:
-                    ops.append("MZ %d" % rng.choice([0, 1, 2, 3, 5, 7, 8, 17, 34, 119]))
+                    ops.append("MZ %d" % rng.choice([0, 1, 2, 3, 5, 7, 8, 17, 34] + ([] if full else [119, 1000])))
                 else:
                     ops.append("H")
             elif r < pa + pr + 0.23:
-                ops.append("%sZ %d" % (pre, rng.choice([0, 1, 2, 3, 4, 6, 7, 16, 17, 18, 36, 119, 238, 1000])))
+                # large tables only when the enumeration is on demand (every enumeration walks all buckets)
+                ops.append("%sZ %d" % (pre, rng.choice([0, 1, 2, 3, 4, 6, 7, 16, 17, 18, 36] + ([] if full else [119, 238, 1000, 5000]))))
             elif r < pa + pr + 0.245:
                 ops.append("%sC" % pre)
                 if not pre:
@@ -106,10 +127,10 @@ class C18set(vlib.HistoryProp):
         ops = ["A %d %d" % (k, i + 1) for i, k in enumerate(keys)]
         gone = rng.sample(keys, rng.randrange(nkeys // 2, nkeys))
         ops += ["R %d" % k for k in gone]
-        ops.append("H")
+        ops += ["H", "E"]
         ops += ["F %d" % k for k in keys]
         ops += ["A %d %d" % (k, 7) for k in gone[:3]] + ["E"]
-        return Case(cid, "1", ops, "shrink-after-removes-%d" % nkeys)
+        return Case(cid, "1" if nkeys <= 60 else "0", ops, "shrink-after-removes-%d" % nkeys)
 
     def grow_walk(self, rng, nkeys, cid):
         """growth through many primes: nkeys distinct insertions with lookups and a few removals in
@@ -143,13 +164,12 @@ class C18set(vlib.HistoryProp):
         for p in sorted(glob.glob(os.path.join(vlib.VERIF, "corpus", "C18set", "*.txt"))):
             lines = [l.strip() for l in open(p) if l.strip() and not l.startswith("#")]
             cases.append(Case("c_" + os.path.basename(p)[:-4], lines[0], lines[1:], "corpus"))
-        k0, k1, k2, k3 = U4
         mut = ["A %d $" % k for k in U4] + ["R %d" % k for k in U4] + ["C", "H", "Z 3"]
         mut2 = mut + ["I %d $" % k for k in U4] + ["Z 2"]
         ex = []
         if tier == "quick":
-            self.exhaustive(mut, 3, "x", ex)
-            self.exhaustive(mut2, 2, "y", ex)
+            self.exhaustive(mut, 4, "x", ex)
+            self.exhaustive(mut2, 3, "y", ex)
             walks = [(list(range(8)), 60, 150, True, True), (list(range(24)) + BIG, 150, 120, True, True),
                      (list(range(40)) + BIG, 400, 25, True, False), (list(range(200)), 700, 4, True, False),
                      (list(range(1500)), 4000, 1, False, True)]
@@ -157,12 +177,12 @@ class C18set(vlib.HistoryProp):
             grow = [(400, 2), (1500, 1)]
         else:
             self.exhaustive(mut, 6, "x", ex)
-            self.exhaustive(mut2, 4, "y", ex)
-            walks = [(list(range(8)), 60, 20000, True, True), (list(range(24)) + BIG, 150, 6000, True, True),
-                     (list(range(40)) + BIG, 400, 1500, True, False), (list(range(200)), 1000, 60, True, False),
-                     (list(range(1500)) + BIG, 10000, 6, False, True), (list(range(6000)), 10000, 3, False, False)]
-            shr = [(20, 2000), (60, 300), (200, 30), (700, 3)]
-            grow = [(400, 40), (1500, 10), (3000, 4), (6000, 2)]
+            self.exhaustive(mut2, 5, "y", ex)
+            walks = [(list(range(8)), 60, 12000, True, True), (list(range(24)) + BIG, 150, 4000, True, True),
+                     (list(range(40)) + BIG, 400, 800, True, False), (list(range(200)), 1000, 30, True, False),
+                     (list(range(1500)) + BIG, 10000, 5, False, True), (list(range(6000)), 10000, 3, False, False)]
+            shr = [(20, 2000), (60, 300), (200, 40), (700, 6)]
+            grow = [(400, 40), (1500, 10), (3000, 2), (6000, 1)]
         cases += ex
         # the exhaustive set histories again through con::map (quick: all, thorough: up to length 5)
         kmap = 0
@@ -214,10 +234,12 @@ HP = C18set()
 
 
 def check(res, tier, seed):
-    res.cov["rule"] += ("C18set: corpus first (the shrink regression); every history of mutators (add x 4 keys, remove x 4, clear, shrink, resize 3) up to length 3 (quick) / 6 (thorough) "
-                        "and with addKeyValue(k,v) and resize 2 up to length 2 / 4 over the 4-key universe {0,1,4,5} (two colliding pairs), each followed by a lookup of every key, "
+    res.cov["rule"] += ("C18set: corpus first (the shrink regression); every history of mutators (add x 4 keys, remove x 4, clear, shrink, resize 3) up to length 4 (quick) / 6 (thorough) "
+                        "and with addKeyValue(k,v) and resize 2 up to length 3 / 5 over the 4-key universe {0,1,4,5} (two colliding pairs; an operation that cannot change the table - remove of an absent key, "
+                        "clear of a pristine table - only as the last one), each followed by a lookup of every key, "
                         "the container enumerated after every operation; the same histories through con::map; seeded random walks over 8 / 36 / 52 / 200 / 1500 / 6000 keys "
-                        "(lengths 60 .. 10^4, phases grow/mixed/drain, resize to small and large lengths, set and map interleaved); many adds - remove most - shrink - find all; "
+                        "(lengths 60 .. 10^4, phases grow/mixed/drain, resize to small and - with enumeration on demand - large lengths, set and map interleaved); many adds - remove most - shrink - find all; "
+                        "growth walks of 400 .. 6000 distinct insertions (tables up to 10949 buckets) - remove 4/5 - shrink - look up; "
                         "compared: return value, size(), sorted enumeration, and for the set allocated(), defaultEntry != nullptr and every chain in order; "
                         "non-trivial = a removal succeeded, a chain held >= 2 entries and the table had grown. ")
     vlib.history_check(res, HP, tier, seed)
